@@ -204,7 +204,10 @@ func expectNext(tr *tokenReader, kinds ...tokenKind) ([]token, error) {
 }
 
 func optNewline(tr *tokenReader) {
-	tr.Next()
+	if !tr.Next() {
+		// end of input: no token was read, so there is none to put back
+		return
+	}
 	if tr.Token().kind != tokenKindNewline {
 		tr.UnNext()
 	}
@@ -663,7 +666,9 @@ func readUnion(tr *tokenReader) (Union, error) {
 
 			// This is a close curly-- we must advance past it or the union
 			// will read it and believe it is complete
-			tr.Next()
+			if !tr.Next() {
+				return union, readError(tr.nextToken, "union definition ended early")
+			}
 			skipEndOfLineComments(tr)
 			optNewline(tr)
 
@@ -685,6 +690,14 @@ func readUnion(tr *tokenReader) (Union, error) {
 				nextCommentTags = append(nextCommentTags, tag)
 			}
 			nextCommentLines = append(nextCommentLines, cmt)
+		case tokenKindCloseCurly:
+			// end of the union; the loop condition sees it
+		case tokenKindSemicolon:
+			// tolerated after a branch
+		default:
+			// anything else would otherwise be skipped silently, up to and
+			// including whole definitions that follow an unclosed union
+			return union, readError(tk, "unexpected %v in union definition", tk.kind)
 		}
 	}
 
